@@ -41,6 +41,23 @@ theorem wire_parsers_read_exactly (H : Bytes → Bytes) :
    readsExactly_of lawful_inventory, readsExactly_of lawful_inv, readsExactly_of lawful_locator,
    readsExactly_of lawful_headers, readsExactly_of lawful_versionBody⟩
 
+/-- the same for the further codecs C05 models (the fixed-size p2p payloads Ping / Pong / FeeFilter / SendCmpct,
+    the BIP157 payloads GetCFilters / GetCFHeaders / CFilter / CFHeaders / GetCFCheckpt / CFCheckpt, and the fixed-size
+    signature forms `ssa.Sig` / `bms.Sig`): the bytes read are exactly the serialization of what is returned.  The parse entry
+    points of btclib that take a caller's stream and have NO codec in either theorem are listed by `harness/c19_stream.py`
+    (evidence note "stream entry points without a Lean codec") and are held to the trailing-bytes oracle only. -/
+theorem more_wire_parsers_read_exactly :
+    ReadsExactly nonce8 ∧ ReadsExactly feeFilter ∧ ReadsExactly sendCmpct ∧ ReadsExactly filterRange ∧
+    ReadsExactly cfilter ∧ ReadsExactly cfheaders ∧ ReadsExactly getcfcheckpt ∧ ReadsExactly cfcheckpt ∧
+    ReadsExactly ssaSig ∧ ReadsExactly bmsSig :=
+  ⟨readsExactly_of (lawful_uintLE 8), readsExactly_of (lawful_intLE 8), readsExactly_of lawful_sendCmpct,
+   readsExactly_of lawful_filterRange, readsExactly_of lawful_cfilter, readsExactly_of lawful_cfheaders,
+   readsExactly_of lawful_getcfcheckpt, readsExactly_of lawful_cfcheckpt, readsExactly_of lawful_ssaSig,
+   readsExactly_of lawful_bmsSig⟩
+
+example : cfilter.parse ([0] ++ List.replicate 32 7 ++ [2, 5, 6] ++ [9, 9])
+    = .ok ((0, List.replicate 32 7, [5, 6]), [9, 9]) := by decide
+
 /-- each wire parser reads at least one byte whenever it answers: parsing object after object off a
     finite stream terminates (the rest is a PROPER suffix). -/
 theorem wire_parsers_make_progress :
